@@ -2,6 +2,7 @@ import Driver.GcDrv
 import Driver.ExcDrv
 import Driver.IdxDrv
 import Driver.VmDrv
+import Driver.FfiDrv
 
 def main (args : List String) : IO UInt32 := do
   match args with
@@ -9,4 +10,5 @@ def main (args : List String) : IO UInt32 := do
   | ["exc"] => ExcDrv.main; return 0
   | ["idx"] => IdxDrv.main; return 0
   | "vm" :: rest => VmDrv.main rest
+  | ["ffi"] => FfiDrv.main; return 0
   | _ => IO.eprintln "usage: nmdrv gc|..."; return 2
